@@ -6,11 +6,10 @@
 // (replay) these are the real functions.
 #![allow(dead_code, static_mut_refs)]
 
-pub const N: usize = 40;
 
 /// Ackermann memo table with CONCRETE slot indices: call number k always writes slot k; its value is
 /// the value of the first earlier call with the same key bits, else the fresh symbolic value.
-pub struct Memo {
+pub struct Memo<const N: usize> {
     pub calls: usize,
     pub k0: [u64; N],
     pub k1: [u64; N],
@@ -19,7 +18,7 @@ pub struct Memo {
     pub v1: [u64; N],
 }
 
-impl Memo {
+impl<const N: usize> Memo<N> {
     pub const fn new() -> Self {
         Memo { calls: 0, k0: [0; N], k1: [0; N], k2: [0; N], v0: [0; N], v1: [0; N] }
     }
@@ -124,8 +123,9 @@ fn fresh64(mode: u8) -> f64 {
 }
 
 macro_rules! uf1 {
-    ($name:ident, $t:ty, $fresh:ident, $tab:ident, $mode:ident, $real:expr) => {
-        pub static mut $tab: Memo = Memo::new();
+    ($name:ident, $t:ty, $fresh:ident, $tab:ident, $mode:ident, $real:expr) => { uf1!($name, $t, $fresh, $tab, $mode, $real, 16); };
+    ($name:ident, $t:ty, $fresh:ident, $tab:ident, $mode:ident, $real:expr, $n:literal) => {
+        pub static mut $tab: Memo<$n> = Memo::new();
         pub static mut $mode: u8 = ANY;
         pub fn $name(x: $t) -> $t {
             #[cfg(kani)]
@@ -144,8 +144,9 @@ macro_rules! uf1 {
     };
 }
 macro_rules! uf2 {
-    ($name:ident, $t:ty, $fresh:ident, $tab:ident, $mode:ident, $real:expr) => {
-        pub static mut $tab: Memo = Memo::new();
+    ($name:ident, $t:ty, $fresh:ident, $tab:ident, $mode:ident, $real:expr) => { uf2!($name, $t, $fresh, $tab, $mode, $real, 16); };
+    ($name:ident, $t:ty, $fresh:ident, $tab:ident, $mode:ident, $real:expr, $n:literal) => {
+        pub static mut $tab: Memo<$n> = Memo::new();
         pub static mut $mode: u8 = ANY;
         pub fn $name(x: $t, y: $t) -> $t {
             #[cfg(kani)]
@@ -164,8 +165,8 @@ macro_rules! uf2 {
     };
 }
 
-uf1!(sqrt_uf_f32, f32, fresh32, SQRT32_TAB, SQRT32_MODE, |x| x.sqrt());
-uf1!(sqrt_uf_f64, f64, fresh64, SQRT64_TAB, SQRT64_MODE, |x| x.sqrt());
+uf1!(sqrt_uf_f32, f32, fresh32, SQRT32_TAB, SQRT32_MODE, |x| x.sqrt(), 24);
+uf1!(sqrt_uf_f64, f64, fresh64, SQRT64_TAB, SQRT64_MODE, |x| x.sqrt(), 24);
 /// when set, sqrt is pinned to its exact value on the points 0, 1/4, 1, 4, 16 (true facts about
 /// every correctly rounded sqrt) and uninterpreted elsewhere
 pub static mut SQRT_PINNED: bool = false;
@@ -214,7 +215,7 @@ uf2!(rem_euclid_f64, f64, fresh64, RE64_TAB, RE64_MODE, |x, y| x.rem_euclid(y));
 
 // sin_cos: one table, result pair. PARITY (when enabled) keys on |x| and returns (-s, c) for a
 // negative argument: the odd/even symmetry of every libm sin/cos (assumption A5).
-pub static mut SINCOS32_TAB: Memo = Memo::new();
+pub static mut SINCOS32_TAB: Memo<8> = Memo::new();
 pub static mut SINCOS32_MODE: u8 = ANY;
 pub static mut SINCOS_PARITY: bool = false;
 pub fn sin_cos_f32(x: f32) -> (f32, f32) {
@@ -237,7 +238,7 @@ pub fn sin_cos_f32(x: f32) -> (f32, f32) {
         x.sin_cos()
     }
 }
-pub static mut SINCOS64_TAB: Memo = Memo::new();
+pub static mut SINCOS64_TAB: Memo<8> = Memo::new();
 pub static mut SINCOS64_MODE: u8 = ANY;
 pub fn sin_cos_f64(x: f64) -> (f64, f64) {
     #[cfg(kani)]
@@ -262,7 +263,7 @@ pub fn sin_cos_f64(x: f64) -> (f64, f64) {
 
 // Memo wrapper round the REAL `%`: no abstraction, only sharing of the (expensive) remainder
 // circuit between the code under proof and the spec (DESIGN §2.1).
-pub static mut REM32_TAB: Memo = Memo::new();
+pub static mut REM32_TAB: Memo<16> = Memo::new();
 pub fn rem_f32(a: f32, b: f32) -> f32 {
     #[cfg(kani)]
     unsafe {
@@ -280,7 +281,7 @@ pub fn rem_f32(a: f32, b: f32) -> f32 {
         a % b
     }
 }
-pub static mut REM64_TAB: Memo = Memo::new();
+pub static mut REM64_TAB: Memo<16> = Memo::new();
 pub fn rem_f64(a: f64, b: f64) -> f64 {
     #[cfg(kani)]
     unsafe {
@@ -299,16 +300,16 @@ pub fn rem_f64(a: f64, b: f64) -> f64 {
 }
 
 // ---- uninterpreted primitive arithmetic (forwarding lemmas: "for ANY function in place of + - * / %") ----
-uf2!(uadd_f32, f32, fresh32, UADD32_TAB, UADD32_MODE, |x, y| x + y);
-uf2!(usub_f32, f32, fresh32, USUB32_TAB, USUB32_MODE, |x, y| x - y);
-uf2!(umul_f32, f32, fresh32, UMUL32_TAB, UMUL32_MODE, |x, y| x * y);
-uf2!(udiv_f32, f32, fresh32, UDIV32_TAB, UDIV32_MODE, |x, y| x / y);
-uf2!(urem_f32, f32, fresh32, UREM32_TAB, UREM32_MODE, |x, y| x % y);
-uf2!(uadd_f64, f64, fresh64, UADD64_TAB, UADD64_MODE, |x, y| x + y);
-uf2!(usub_f64, f64, fresh64, USUB64_TAB, USUB64_MODE, |x, y| x - y);
-uf2!(umul_f64, f64, fresh64, UMUL64_TAB, UMUL64_MODE, |x, y| x * y);
-uf2!(udiv_f64, f64, fresh64, UDIV64_TAB, UDIV64_MODE, |x, y| x / y);
-uf2!(urem_f64, f64, fresh64, UREM64_TAB, UREM64_MODE, |x, y| x % y);
+uf2!(uadd_f32, f32, fresh32, UADD32_TAB, UADD32_MODE, |x, y| x + y, 40);
+uf2!(usub_f32, f32, fresh32, USUB32_TAB, USUB32_MODE, |x, y| x - y, 40);
+uf2!(umul_f32, f32, fresh32, UMUL32_TAB, UMUL32_MODE, |x, y| x * y, 40);
+uf2!(udiv_f32, f32, fresh32, UDIV32_TAB, UDIV32_MODE, |x, y| x / y, 40);
+uf2!(urem_f32, f32, fresh32, UREM32_TAB, UREM32_MODE, |x, y| x % y, 40);
+uf2!(uadd_f64, f64, fresh64, UADD64_TAB, UADD64_MODE, |x, y| x + y, 40);
+uf2!(usub_f64, f64, fresh64, USUB64_TAB, USUB64_MODE, |x, y| x - y, 40);
+uf2!(umul_f64, f64, fresh64, UMUL64_TAB, UMUL64_MODE, |x, y| x * y, 40);
+uf2!(udiv_f64, f64, fresh64, UDIV64_TAB, UDIV64_MODE, |x, y| x / y, 40);
+uf2!(urem_f64, f64, fresh64, UREM64_TAB, UREM64_MODE, |x, y| x % y, 40);
 macro_rules! assign_form {
     ($($name:ident = $base:ident : $t:ty),*) => {$(
         pub fn $name(a: &mut $t, b: $t) { *a = $base(*a, b); }
@@ -321,8 +322,9 @@ assign_form!(uadd_assign_f32 = uadd_f32: f32, usub_assign_f32 = usub_f32: f32, u
              rem_assign_f32 = rem_f32: f32, rem_assign_f64 = rem_f64: f64);
 
 macro_rules! uf3 {
-    ($name:ident, $t:ty, $fresh:ident, $tab:ident, $mode:ident, $real:expr) => {
-        pub static mut $tab: Memo = Memo::new();
+    ($name:ident, $t:ty, $fresh:ident, $tab:ident, $mode:ident, $real:expr) => { uf3!($name, $t, $fresh, $tab, $mode, $real, 16); };
+    ($name:ident, $t:ty, $fresh:ident, $tab:ident, $mode:ident, $real:expr, $n:literal) => {
+        pub static mut $tab: Memo<$n> = Memo::new();
         pub static mut $mode: u8 = ANY;
         pub fn $name(x: $t, y: $t, z: $t) -> $t {
             #[cfg(kani)]
